@@ -47,8 +47,6 @@ def existing_configs(tier):
         for p in itertools.permutations(ENTRIES, n):
             if tier == 'quick' and n == 3 and not (p[0] < p[1] < p[2]):
                 continue
-            if tier == 'quick' and n == 2 and not (p[0] < p[1]) and client_can_use(p[0]) and client_can_use(p[1]) and ' ' not in p[0] + p[1]:
-                continue
             out.append(('list', list(p)))
     return out
 
